@@ -36,7 +36,12 @@ fn content(seed: u64, w: usize, h: usize, s: u8, kind: u32) -> Vec<u8> {
 
 fn one(seed: u64, w: usize, h: usize, s: u8, kind: u32) -> Result<(), String> {
     let data = content(seed, w, h, s, kind);
-    let out = guard(|| deblock(&data, w, s)).map_err(|p| format!("deblock({}x{}, strength {}, content: {}) panicked: {}", w, h, s, CONTENT_NAMES[kind as usize], p))?;
+    // handed over at byte offset 0..7 of a larger buffer
+    let off = (w + h * 5 + kind as usize) % 8;
+    let mut buf = vec![0u8; off];
+    buf.extend_from_slice(&data);
+    let data = &buf[off..];
+    let out = guard(|| deblock(data, w, s)).map_err(|p| format!("deblock({}x{}, strength {}, content: {}) panicked: {}", w, h, s, CONTENT_NAMES[kind as usize], p))?;
     if out.len() != data.len() {
         return Err(format!("deblock({}x{}, strength {}) returned {} samples for {} input samples", w, h, s, out.len(), data.len()));
     }
